@@ -131,10 +131,49 @@ def outcome(s):
     return [exc, project(p)]
 
 
+def check_truncations(s, segs):
+    """Conforming data cut at EVERY character position (a number may be cut in two, so the last retained segment may
+    differ): the parse returns or raises ValueError, what is retained is numeric and - up to its last segment - a
+    prefix of the full interpretation, and the follow-up operations work."""
+    dis = []
+    for cut in range(len(s)):
+        t = s[:cut]
+        p = svg.Path()
+        try:
+            p.parse(t)
+        except ValueError:
+            pass
+        except engine.CaseTimeout:
+            raise
+        except BaseException as e:
+            dis.append({"clause": "Totality", "detail": "parse raised %s: %s  [data %r = %r cut at %d]" % (type(e).__name__, str(e)[:60], t, s, cut),
+                        "exc": type(e).__name__, "s": t})
+            continue
+        got = list(p)
+        n = max(0, min(len(got), len(segs)) - 1)
+        if len(got) > len(segs):
+            dis.append({"clause": "Truncation:Count", "detail": "%r (cut of %r) has %d segments, the whole has %d" % (t, s, len(got), len(segs)), "s": t})
+        elif n:
+            head = svg.Path()
+            head._segments = got[:n]
+            for x in compare_segs(svg, head, segs[:n]):
+                x["clause"] = "Truncation:" + x["clause"]
+                x["detail"] += "  [data %r cut from %r]" % (t, s)
+                x["s"] = t
+                dis.append(x)
+        for x in soundness(p):
+            x["s"] = t
+            x["detail"] += "  [data %r cut from %r]" % (t, s)
+            dis.append(x)
+    return dis
+
+
 def check_case(case):
     tape, status, segs = case["tape"], case["status"], case["segs"]
     s = tape_to_string(tape, case.get("salt", 0))
     dis = check_string(s, status, segs)
+    if case["edit"][0] == "none" and status == "ok":
+        dis += check_truncations(s, segs)
     # the specification's parser is a function of the tape alone: the outcome must not depend on
     # what was parsed before (history of parses = a poisoned parse, then the same data again)
     o1 = outcome(s)
